@@ -225,7 +225,7 @@ func checkRegisterFlow(w *load.World, c *core.Collector, f *asmFunc, cnt string,
 				setKind(last, rkMixed)
 			}
 		}
-		if in.op == "RET" && !s.countZero {
+		if in.op == "RET" && !s.countZero && cnt != "" {
 			report(i, "the result can be returned on a path on which the element count was never seen to reach zero: elements are left unprocessed")
 		}
 		fall, target := succs(i)
